@@ -600,6 +600,17 @@ type chainTask struct {
 	// Slot selects the tamper position of this task: 0 = genesis, 1 = middle, 2 = last block
 	// (thorough tier: slot k = block k). The other blocks are stored untampered.
 	Slot int `json:"slot"`
+	// Risky selects the second pass: only the tamperings that make juno dereference a nil pointer
+	// (nil-ed fields, missing resource bounds, version switches). They run last, after the result
+	// file has been checkpointed, because such a panic is fatal for the whole process as soon as
+	// juno does the work on another goroutine.
+	Risky bool `json:"risky"`
+}
+
+func riskyCase(name string) bool {
+	return strings.HasSuffix(name, ":setnil") ||
+		(strings.Contains(name, ">.ResourceBounds:") && (strings.Contains(name, ":del") || strings.Contains(name, ":rekey"))) ||
+		(strings.Contains(name, "Transactions[]<") && strings.Contains(name, ">.Version:"))
 }
 
 // tamperSlots is the number of tamper positions (= tasks) per chain and backend.
@@ -619,6 +630,7 @@ type replay struct {
 	Detail   string    `json:"detail"`
 	Error    string    `json:"error,omitempty"`
 	Note     string    `json:"note,omitempty"`
+	Wide     *wideCase `json:"wide,omitempty"`
 }
 
 func buildChain(f lib.Flags, task chainTask) (*lib.ChainGen, error) {
@@ -749,6 +761,9 @@ func runTask(f lib.Flags, res *lib.Result, task chainTask, only *replay) {
 				if only != nil && only.Case != tc.Name+"|"+tc.Detail {
 					continue
 				}
+				if only == nil && riskyCase(tc.Name) != task.Risky {
+					continue
+				}
 				r := offer(n, tc.Bundle)
 				class := errClass(r.err)
 				if r.hung {
@@ -831,7 +846,7 @@ func runTask(f lib.Flags, res *lib.Result, task chainTask, only *replay) {
 		}
 	}
 	// the chain the node ended with is the generated one: compare the head state with the abstract state
-	if only == nil && task.Slot == 0 {
+	if only == nil && task.Slot == 0 && !task.Risky {
 		checkHeadState(res, n, g, task)
 	}
 }
